@@ -41,38 +41,47 @@ def close(a, b, rtol=1e-8):
     return bool(numpy.all(numpy.abs(a - b) <= rtol * (1 + numpy.abs(b))))
 
 
-def poly_prog(rng, N):
-    """polynomial program with integer coefficients (+ - * and small integer constants/powers, optional buffer block)"""
+def poly_prog(rng, N, maxdeg=6):
+    """polynomial program with integer coefficients (+ - * and small integer constants/powers, optional buffer block);
+    the total degree is kept <= maxdeg so that float64 stays exact at small integer points"""
     instrs = [['x', i] for i in range(N)]
     sc = list(range(N))          # scalar registers
+    deg = {i: 1 for i in range(N)}
     nreg = N
 
-    def emit(ins, scalar=True):
+    def emit(ins, scalar=True, d=0):
         nonlocal nreg
         instrs.append(ins); nreg += 1
         if scalar:
-            sc.append(nreg - 1)
+            sc.append(nreg - 1); deg[nreg - 1] = d
         return nreg - 1
     for _ in range(rng.randint(3, 9)):
         a = rng.choice(sc); b = rng.choice(sc)
         r = rng.random()
         if r < 0.6:
-            emit(['bin', rng.choice(['add', 'sub', 'mul', 'mul']), ['r', a], ['r', b]])
+            op = rng.choice(['add', 'sub', 'mul', 'mul'])
+            d = deg[a] + deg[b] if op == 'mul' else max(deg[a], deg[b])
+            if d <= maxdeg:
+                emit(['bin', op, ['r', a], ['r', b]], d=d)
         elif r < 0.8:
             c = ['c', float(rng.choice([-3, -2, 2, 3]))]
-            emit(['bin', rng.choice(['add', 'mul', 'sub']), c, ['r', a]] if rng.random() < 0.5 else ['bin', rng.choice(['add', 'mul', 'sub']), ['r', a], c])
+            emit(['bin', rng.choice(['add', 'mul', 'sub']), c, ['r', a]] if rng.random() < 0.5 else ['bin', rng.choice(['add', 'mul', 'sub']), ['r', a], c], d=deg[a])
         else:
-            emit(['pow', a, rng.choice([2, 3])])
+            n = rng.choice([2, 3])
+            if deg[a] * n <= maxdeg:
+                emit(['pow', a, n], d=deg[a] * n)
     if rng.random() < 0.4:
         buf = emit(['zeros', 2], scalar=False)
-        instrs.append(['set', buf, 0, ['r', rng.choice(sc)]])
-        instrs.append(['set', buf, 1, ['r', rng.choice(sc)]])
-        g0 = emit(['get', buf, 0])
-        m = emit(['bin', 'mul', ['r', g0], ['r', rng.randrange(N)]])
+        low = [r for r in sc if deg[r] <= maxdeg - 1]
+        a0 = rng.choice(low); a1 = rng.choice(sc)
+        instrs.append(['set', buf, 0, ['r', a0]])
+        instrs.append(['set', buf, 1, ['r', a1]])
+        g0 = emit(['get', buf, 0], d=maxdeg)          # views: degree may change when the cell is overwritten -> treat as maximal
+        m = emit(['bin', 'mul', ['r', g0], ['r', rng.randrange(N)]], d=maxdeg)
         instrs.append(['set', buf, 0, ['r', m]])
-        g1 = emit(['get', buf, 0]); g2 = emit(['get', buf, 1])
-        emit(['bin', 'add', ['r', g1], ['r', g2]])
-    out = emit(['bin', 'add', ['r', sc[-1]], ['r', rng.choice(sc)]])
+        g1 = emit(['get', buf, 0], d=maxdeg); g2 = emit(['get', buf, 1], d=maxdeg)
+        emit(['bin', 'add', ['r', g1], ['r', g2]], d=maxdeg)
+    out = emit(['bin', 'add', ['r', sc[-1]], ['r', rng.choice(sc)]], d=maxdeg)
     return dict(N=N, instrs=instrs, ret=[out])
 
 
